@@ -5,6 +5,7 @@ from __future__ import annotations
 import ast
 
 from ..core import AnalysisError, Check, norm, strip_docstring, walk_no_nested
+from ..interp import Sym, SymInterp
 from ..timeq import ABS
 from ..variants import Variant
 from .c04 import CLS, SIM, run_time_rule
@@ -78,73 +79,133 @@ class C14(Check):
             self.violated("Q1", INIT, q, "starts-at-zero-unfiltered", fn, "accumulator does not start at zero or steps are filtered")
 
     def q2(self, sim, name: str) -> None:
+        """Per-iteration behaviour of a protocol runner, from two-iteration path summaries (values staged in locals, helper
+        functions and the way the step ends are iterated do not matter)."""
         fn = sim.func(f"{CLS}.{name}")
         q = f"{CLS}.{name}"
         loops = [s for s in strip_docstring(fn.body) if isinstance(s, ast.For) and "iterrows" in norm(s.iter)]
         if len(loops) != 1:
             raise AnalysisError(f"{q}: protocol loop not recognised")
         loop = loops[0]
-        if norm(loop.iter) == "protocol.iterrows()":
+        it = loop.iter
+        whole = norm(it) == "protocol.iterrows()" or (isinstance(it, ast.Call) and norm(it.func) == "zip" and any(norm(a_) == "protocol.iterrows()" for a_ in it.args)
+                                                         and {k.arg: norm(k.value) for k in it.keywords}.get("strict") == "True")
+        if whole:
             self.holds("Q2", SIM, q, "every-step-in-order", loop, "iterates protocol.iterrows(): every step, in protocol order")
         else:
             self.violated("Q2", SIM, q, "every-step-in-order", loop, f"the loop iterates `{norm(loop.iter)}`: steps are skipped or reordered",
                           witness="the first (or last) step of the protocol is never simulated")
-        row = loop.target.elts[1].id if isinstance(loop.target, ast.Tuple) else None
-        upd = [i for i, s in enumerate(loop.body) if isinstance(s, ast.Expr) and norm(s.value) == f"self.model.update_parameters({row}.to_dict())"]
-        simc = [i for i, s in enumerate(loop.body) if isinstance(s, ast.Expr) and norm(s.value).startswith(("self.simulate(", "self.simulate_time_course("))]
-        if len(upd) == 1 and len(simc) == 1 and upd[0] < simc[0]:
-            self.holds("Q2", SIM, q, "apply-then-simulate", loop.body[upd[0]], "row values applied unconditionally before the step is simulated")
+
+        class Two(SymInterp):
+            loop_unroll = 2
+
+        out = Two().run_function(fn, Sym())
+        paths = [st for st, _ in out.returns]
+        self.paths14 = getattr(self, "paths14", {})
+        self.paths14[name] = paths
+
+        def iteration_events(st, k):
+            """events of iteration k: from the update/simulate calls that mention ROW(k, ..) / ITEM(k, ..)"""
+            return [e for e in st.events if e[0] == "call" and (f"ROW({k}, " in e[1] or f"ITEM({k}, " in e[1] or e[1].startswith(("self.simulate(", "self.simulate_time_course(")))]
+
+        ok = bool(paths)
+        skipped = False
+        seen_iter = False
+        for st in paths:
+            calls = [e[1] for e in st.events if e[0] == "call"]
+            ups = [i for i, c in enumerate(calls) if c.startswith("self.model.update_parameters(")]
+            sims = [i for i, c in enumerate(calls) if c.startswith(("self.simulate(", "self.simulate_time_course("))]
+            if not ups and not sims:
+                continue
+            seen_iter = True
+            # strict alternation update(ROW(k)), simulate, update(ROW(k+1)), simulate ...
+            seq = sorted([(i, "u") for i in ups] + [(i, "s") for i in sims])
+            kinds = "".join(k for _, k in seq)
+            if kinds not in ("us", "usus", "u", "usu"):
+                ok = False
+            for n_, i in enumerate(ups):
+                if calls[i] != f"self.model.update_parameters(ROW({n_}, protocol).to_dict())":
+                    ok = False
+            if kinds in ("u", "usu"):
+                skipped = True
+        node_u = [s_ for s_ in ast.walk(loop) if isinstance(s_, ast.Expr) and norm(s_.value).startswith("self.model.update_parameters(")]
+        if ok and seen_iter:
+            self.holds("Q2", SIM, q, "apply-then-simulate", node_u[0] if node_u else loop, "row values applied unconditionally before the step is simulated")
         else:
             self.violated("Q2", SIM, q, "apply-then-simulate", loop,
                           "the step's parameter values are not applied (unconditionally, exactly once) before its interval is simulated",
                           witness="protocol [(1,{'k':1}),(1,{'k':2})]: the first interval runs under the model's previous k, the second under k=1")
-        pre = [s for s in loop.body[: simc[0] if simc else 0] if isinstance(s, (ast.If, ast.Continue, ast.Break))]
-        if pre:
-            self.violated("Q2", SIM, q, "no-skip-before-simulate", pre[0], "a step can be skipped before it is simulated")
+        if skipped:
+            self.violated("Q2", SIM, q, "no-skip-before-simulate", loop, "a step can be skipped before it is simulated")
         else:
             self.holds("Q2", SIM, q, "no-skip-before-simulate", loop, "no conditional exit precedes the simulation of a step")
         if name == "simulate_protocol":
-            rebound = [s for s in walk_no_nested(loop) if isinstance(s, ast.Assign) and norm(s.targets[0]) == "t_start"]
-            if rebound:
-                self.violated("Q2", SIM, q, "t_start-fixed", rebound[0],
-                              "t_start is advanced inside the loop although the protocol index is cumulative: step ends are counted twice")
-            else:
+            # the end handed to simulate() in iteration k is <start taken once> + <cumulative end k>
+            good = True
+            n_checked = 0
+            for st in paths:
+                sims = [e[1] for e in st.events if e[0] == "call" and e[1].startswith("self.simulate(")]
+                t0 = "0.0" if any(c == "self.variables is None" and p_ for c, p_ in st.conds) else "self.variables[-1].index[-1]"
+                for k, c in enumerate(sims):
+                    n_checked += 1
+                    cn = ast.parse(c, mode="eval").body
+                    argn = cn.args[0] if cn.args else {k_.arg: k_.value for k_ in cn.keywords}.get("t_end")
+                    arg = norm(argn) if argn is not None else "?"
+                    if arg not in (f"{t0} + ITEM({k}, protocol.index).total_seconds()", f"ITEM({k}, protocol.index).total_seconds() + {t0}"):
+                        good = False
+            if good and n_checked:
                 self.holds("Q2", SIM, q, "t_start-fixed", loop, "t_start is taken once; step ends are t_start + cumulative duration")
+            else:
+                self.violated("Q2", SIM, q, "t_start-fixed", loop,
+                              "t_start is advanced inside the loop although the protocol index is cumulative: step ends are counted twice")
 
     def q3(self, sim) -> None:
         fn = sim.func(f"{CLS}.simulate_protocol_time_course")
         q = f"{CLS}.simulate_protocol_time_course"
         loop = [s for s in strip_docstring(fn.body) if isinstance(s, ast.For)][0]
-        row_t = loop.target.elts[0].id
-        # half-open mask
+        paths = self.paths14["simulate_protocol_time_course"]
+        half = rel = join = True
+        n_sim = 0
+        why = ""
+        for st in paths:
+            t0 = "0.0" if any(c == "self.variables is None" and p_ for c, p_ in st.conds) else "self.variables[-1].index[-1]"
+            relative = [p_ for c, p_ in st.conds if c == "time_points_as_relative"]
+            tp = "np.array(time_points, dtype=float)" + (f" + {t0}" if relative and relative[-1] else "")
+            idx = f"(protocol.index + pd.Timedelta({t0}, unit='s')).total_seconds()"
+            full = f"{idx}.join(pd.Index({tp}), how='outer')"
+            sims = [e[1] for e in st.events if e[0] == "call" and e[1].startswith("self.simulate_time_course(")]
+            for k, c in enumerate(sims):
+                n_sim += 1
+                short = c.replace(full, "F").replace(idx, "IDX").replace(tp, "TP")
+                lo = t0 if k == 0 else f"ITEM({k - 1}, IDX)"
+                hi = f"ITEM({k}, IDX)"
+                lo = lo.replace(idx, "IDX")
+                forms = (f"self.simulate_time_course(time_points=F[(F > {lo}) & (F <= {hi})])", f"self.simulate_time_course(time_points=F[(F <= {hi}) & (F > {lo})])",
+                         f"self.simulate_time_course(time_points=F[({lo} < F) & (F <= {hi})])", f"self.simulate_time_course(F[(F > {lo}) & (F <= {hi})])")
+                if short not in forms:
+                    if "F[" not in short:
+                        join = False
+                        if "TP" not in short:
+                            rel = False
+                    half = False
+                    why = short[:140]
         masks = [n for n in ast.walk(loop) if isinstance(n, ast.BinOp) and isinstance(n.op, ast.BitAnd)]
-        ok = False
-        for m in masks:
-            parts = {(type(c.ops[0]).__name__, norm(c.comparators[0])) for c in (m.left, m.right) if isinstance(c, ast.Compare) and len(c.ops) == 1}
-            rev = {(type(c.ops[0]).__name__, norm(c.left)) for c in (m.left, m.right) if isinstance(c, ast.Compare) and len(c.ops) == 1}
-            if parts == {("Gt", "t_start"), ("LtE", row_t)} or rev == {("Lt", "t_start"), ("GtE", row_t)}:
-                ok = True
-        if ok:
-            self.holds("Q3", SIM, q, "half-open-selection", masks[0], f"points selected for a step: (t_start, {row_t}]")
+        anchor = masks[0] if masks else loop
+        if half and n_sim:
+            self.holds("Q3", SIM, q, "half-open-selection", anchor, "points selected for step k: (end of step k-1 | start, end of step k], ends in absolute time")
+            self.holds("Q3", SIM, q, "advance-after", anchor, "the lower bound of step k+1 is the end of step k")
         else:
-            self.violated("Q3", SIM, q, "half-open-selection", masks[0] if masks else loop,
+            self.violated("Q3", SIM, q, "half-open-selection", anchor,
                           "the per-step selection is not the half-open interval (t_start, t_end]: a boundary point is simulated "
-                          "under both neighbouring steps or under neither",
+                          f"under both neighbouring steps or under neither (`{why}`)",
                           witness="requested point equal to a step boundary appears twice / is missing, or is computed under the next step's values")
-        adv = [i for i, s in enumerate(loop.body) if isinstance(s, ast.Assign) and norm(s) == f"t_start = {row_t}"]
-        simc = [i for i, s in enumerate(loop.body) if isinstance(s, ast.Expr) and norm(s.value).startswith("self.simulate_time_course(")]
-        if adv and simc and adv[0] > simc[0]:
-            self.holds("Q3", SIM, q, "advance-after", loop.body[adv[0]], "t_start := t_end after the step was simulated")
-        else:
-            self.violated("Q3", SIM, q, "advance-after", loop, "t_start is not advanced to the step's end after simulating it")
-        # relative flag
-        flags = [s for s in strip_docstring(fn.body) if isinstance(s, ast.If) and isinstance(s.test, ast.Name) and s.test.id.endswith("as_relative")]
-        if flags and [norm(b) for b in flags[0].body] == ["time_points += t_start"] and not flags[0].orelse:
-            self.holds("Q3", SIM, q, "relative-flag", flags[0], "t_start added to the requested points only under the flag")
+        flags = [s for s in ast.walk(fn) if isinstance(s, ast.If) and isinstance(s.test, ast.Name) and s.test.id.endswith("as_relative")]
+        if rel and n_sim and (half or join):
+            self.holds("Q3", SIM, q, "relative-flag", flags[0] if flags else fn, "t_start added to the requested points only under the flag")
         else:
             self.violated("Q3", SIM, q, "relative-flag", flags[0] if flags else fn, "relative time points are not shifted by t_start exactly under the flag")
         joins = [n for n in ast.walk(fn) if isinstance(n, ast.Call) and isinstance(n.func, ast.Attribute) and n.func.attr == "join"]
-        if joins and {k.arg: norm(k.value) for k in joins[0].keywords}.get("how") == "'outer'" and norm(joins[0].func.value) == "protocol.index":
+        if join and n_sim and joins:
             self.holds("Q3", SIM, q, "outer-join", joins[0], "requested points united with the step boundaries")
         else:
             self.violated("Q3", SIM, q, "outer-join", joins[0] if joins else fn, "requested points are not outer-joined with the step boundaries: boundaries or points are lost")
